@@ -85,6 +85,7 @@ def flattenEvent(event: LogEvent) -> None:
         if fieldName is None:
             continue
 
+        explicitConversion = conversion is not None
         if conversion != "r":
             conversion = "s"
 
@@ -112,7 +113,11 @@ def flattenEvent(event: LogEvent) -> None:
         if callit:
             fieldValue = fieldValue()
 
-        flattenedValue = conversionFunction(fieldValue)
+        # Like string.Formatter: convert only when asked to, then apply the
+        # (possibly nested) format specification.
+        converted = conversionFunction(fieldValue) if explicitConversion else fieldValue
+        spec = aFormatter.vformat(formatSpec, (), event) if formatSpec else ""
+        flattenedValue = format(converted, spec)
         fields[flattenedKey] = flattenedValue
         fields[structuredKey] = fieldValue
 
